@@ -120,7 +120,7 @@ PROPS["C08"] = dict(
     technique="runtime differential monitoring: exhaustive 2-/3-way and random k-way chunkings of every incremental interface, each result compared with the one-shot result (and libsodium's one-shot)",
     level_text="All 2-way splits of every length 0..=L2 and all 3-way splits of every length 0..=L3 (empty pieces included) are enumerated for "
                "11 incremental interfaces, plus seeded random k-way partitions of messages up to 16 KiB; the split enumeration is exhaustive "
-               "within its bounds, which reach every (buffer fill, piece class) state of the 16- and 128-byte block buffers; beyond the bounds it is sampling.",
+               "within its bounds, which reach every (buffer fill, piece class) state of the 16- and 128-byte block buffers; beyond the bounds it is sampling. A parameter-agreement family compares incremental and one-shot generic hash over key lengths {none, 0..128} x digest lengths {0..65} (accepted and refused alike) and the verification decision of incremental and one-shot MACs when the authenticator is handed over in a Vec of exact length or longer than the MAC.",
     level_note="Message contents are one seeded random string per length; the one-shot value is additionally pinned to libsodium.",
     runs=lambda tier: [dict(build="st", monitor="c08")] + ([dict(kind="custom", fn=_MIRI("c08"))] if tier == "thorough" else []),
     floors=_c08_floors,
@@ -144,7 +144,7 @@ PROPS["C12"] = dict(
     level="exploration",
     technique="runtime differential monitoring: libsodium crypto_kdf_derive_from_key online, hashlib.blake2b (salt/personal) offline on every logged derivation, plus relatedness checks between lengths/ids/contexts",
     level_text="Every subkey length 16..=64 and every rejected length 0..=15, 65..=80 is exercised for each cell of {key class} x {context class} x "
-               "{special and random ids}; each subkey is compared with libsodium and with an independent BLAKE2b; lengths are enumerated completely, keys/ids sampled.",
+               "{special and random ids}; each subkey is compared with libsodium and with an independent BLAKE2b; lengths are enumerated completely, keys/ids sampled. Output buffers are handed over full of stale bytes, and the whole workload runs a second time in a plain release build (no debug assertions, no overflow checks).",
     level_note="Trusts libsodium and hashlib's BLAKE2b as two independent implementations of the keyed, salted, personalised BLAKE2b that crypto_kdf is defined as.",
     runs=lambda tier: [dict(build="st", monitor="c12"), dict(build="st-rel", monitor="c12")],
     offline=offline.check_c12,
@@ -176,7 +176,7 @@ PROPS["C05"] = dict(
     technique="runtime differential monitoring: libsodium crypto_scalarmult / crypto_box_beforenm / crypto_kx online on random, low-order, twist and non-canonical encodings; RFC 7748 Montgomery ladder in Python offline; RFC iterated vectors",
     level_text="X25519 is executed on uniformly random 32-byte encodings (most of them off the prime-order subgroup), on the complete low-order table with "
                "its non-canonical and high-bit variants, on edge field elements around p and 2^255, and on the RFC 7748 (iterated) vectors; DH commutativity, "
-               "box precomputation and key-exchange session keys (classic + object API) are compared with libsodium including its refusals. The scalar/point "
+               "box precomputation and key-exchange session keys (classic + object API) are compared with libsodium including its refusals. Every one-bit neighbour (256 per encoding) and random one-byte neighbours of every special encoding and of the base point are multiplied as well, peers are constructed so that the shared secret has repeating / cancelling / mostly-zero words, and the object-API sessions must derive libsodium's keys for every special and random peer encoding (not only take the same accept/refuse decision). The scalar/point "
                "space is 2^512, so this is exploration: dense on the special encodings, sampled elsewhere.",
     level_note="Where libsodium returns -1 (block-listed input or all-zero result) the RFC 7748 value is all-zero; the Python ladder arbitrates those cases offline.",
     runs=lambda tier: [dict(build="st", monitor="c05"), dict(build="ni", monitor="c05", opts=NI_ONLY)],
@@ -210,7 +210,7 @@ PROPS["C06"] = dict(
     technique="runtime differential monitoring: libsodium crypto_sign_* bytes and accept/reject decisions online over generated messages and an enumerated negative family (bit flips, S+kL, small-order A/R forgeries, mode cross-overs); RFC 8032 Python signer/verifier offline",
     level_text="Signing through every classic and object entry point is compared byte-for-byte with libsodium for every message length 0..=L, in pure and pre-hashed mode; "
                "verification decisions of every entry point are compared with libsodium on all single-bit mutations (exhaustively on a subset of cases), the full S+kL family, "
-               "equation-valid forgeries built on all 14 small-order / non-canonical encodings as A and as R, and mode cross-overs. Seeds and messages are sampled.",
+               "equation-valid forgeries built on all 14 small-order / non-canonical encodings as A and as R, and mode cross-overs. The forgeries are equation-valid in the mode they are presented in (pure and pre-hashed challenge), include small-order A together with small-order R and S = 0, and mixed-order keys A + T in both modes. Seeds and messages are sampled.",
     level_note="This libsodium build is the default (non ED25519_COMPAT) one; its decision is the specification the property names. The Python RFC 8032 model re-checks a sample.",
     runs=lambda tier: [dict(build="st", monitor="c06")],
     offline=offline.check_c06,
@@ -289,7 +289,7 @@ PROPS["C02"] = dict(
     technique="runtime fault enumeration: exhaustive single-corruption family injected at the wire/key boundary of every opening entry point, oracle = Err for every corrupted input and Ok for the control (libsodium must reject the same input, else inconclusive)",
     level_text="For each authentic message the complete single-corruption family is enumerated and every opening form of its family is called; the fault space per message is finite and covered "
                "completely, message lengths are 8 boundary lengths (quick) or 0..=96 + {255,256,257,1024} (thorough). Box public/secret key bits are not flipped (X25519 ignores bit 255 and clamps "
-               "5 scalar bits, so those are not corruptions of the shared key); the sealed-box ephemeral key is.",
+               "5 scalar bits, so those are not corruptions of the shared key); the sealed-box ephemeral key is. Truncated and extended ciphertexts are presented twice to the copying forms: with an output buffer sized from the wire and with one sized for the genuine message. In-place forms are also driven as trial decryption (wrong key first, then the right key on the same buffer); caller buffers start at every alignment mod 8; earlier stream messages carry varied tag bytes and an authentic earlier message that is refused is itself a violation.",
     level_note="Keys and message contents are sampled once per authentic message; the enumeration over corruptions is exhaustive.",
     runs=lambda tier: [dict(build="st", monitor="c02"), dict(build="ni", monitor="c02", opts=NI_ONLY)],
     floors=_fault_floors("C02"),
@@ -303,7 +303,7 @@ PROPS["C17"] = dict(
     level="fault_enumeration",
     technique="runtime fault enumeration: the C02 corruption family replayed against every classic open function with sentinel-filled caller buffers; oracle = after Err every output byte is its pre-call value or zero, the stream tag variable is untouched, and the error text does not vary with the rejected bytes",
     level_text="Same exhaustive single-corruption family as C02; after every rejected open the caller-visible message buffer (copying forms: pre-filled with a zero-free sentinel; in-place forms: the "
-               "tampered input itself) and the stream tag output are inspected byte by byte under the most permissive reading of 'left as they were or zeroed'.",
+               "tampered input itself) and the stream tag output are inspected byte by byte under the most permissive reading of 'left as they were or zeroed'. Caller buffers start at every alignment mod 8 (slots inside a larger allocation); length-changing corruptions are also presented with a buffer sized for the genuine message; in-place forms are also driven as trial decryption; the set of error texts per entry point and wire length must stay small (an error text that varies with the rejected bytes is a release).",
     level_note="A leaked keystream-XORed byte escapes the per-byte test only if it happens to equal the sentinel byte or zero (probability 2/256 per byte); over the enumerated family a leak of any length is caught essentially always.",
     runs=lambda tier: [dict(build="st", monitor="c17"), dict(build="ni", monitor="c17", opts=NI_ONLY)],
     floors=_fault_floors("C17"),
@@ -506,7 +506,7 @@ PROPS["C10"] = dict(
     technique="runtime differential monitoring: strings produced by dryoc are decoded by an independent strict PHC decoder, re-hashed with libsodium's Argon2 core and handed to libsodium's verifier; strings produced by libsodium (argon2i and argon2id) and harness-built strings are verified, re-encoded and queried for needs-rehash under dryoc",
     level_text="For seeded passwords (0..=128 bytes, incl. NUL and non-UTF-8) and small costs (opslimit 1..4, 8..256 KiB) the check crosses both libraries in both directions: dryoc string -> libsodium verifier "
                "(right and wrong password) and decode-and-recompute; libsodium / harness-built string (both algorithms, salt 8..64 bytes, hash 16..128 bytes) -> dryoc verify, parse, re-encode (must be identical) "
-               "and needs_rehash (false exactly when both costs match, for five cost variations per string). Sampled inputs, hence exploration.",
+               "and needs_rehash (false exactly when both costs match, for five cost variations per string). A parse-only family (no hashing) covers m and t over the whole u32 range, both algorithms: parse -> re-encode must be the identity and needs_rehash must follow the rule (cross-checked with libsodium's needs_rehash). Sampled inputs, hence exploration.",
     level_note="libsodium's decoder sizes its buffers from strlen, so its verdict is available for non-default salt/hash lengths too; the needs-rehash rule is cross-checked against libsodium on standard strings.",
     runs=lambda tier: [dict(build="st", monitor="c10")],
     floors=_c10_floors,
@@ -527,7 +527,7 @@ PROPS["C11"] = dict(
     level="exploration",
     technique="runtime history monitoring: N consecutive calls of every randomised entry point, statistical oracle with explicit false-alarm bound (distinctness, non-zero, per-byte variability)",
     level_text="50 entry points (byte-array gen() on every container, all keygen/keypair functions, object-API generators, sealed-box ephemeral key, stream header, password-hash salts from the object and the string API; "
-               "heap / locked / read-only-locked variants on nightly) are each called 256 (quick) / 1024 (thorough) times in a row; no value may repeat, be all-zero, or have a byte position that never changes. "
+               "heap / locked / read-only-locked variants on nightly) are each called 256 (quick) / 1024 (thorough) times in a row; no value may repeat, be all-zero, or have a byte position that never changes. Every value must be non-empty and of the announced, constant length; no bit position may be stuck (raw outputs); and after fork(2) parent and child must not draw a common value (each entry point primed once before the fork). "
                "A finite number of calls cannot prove independence; the test detects constant, partially constant, zero and repeating outputs.",
     level_note="False-alarm probability per run < 2^-100 (distinctness and non-zero tests only on values of >= 16 bytes; a byte position constant over 256 uniform draws has probability 256^-255).",
     runs=lambda tier: [dict(build="st", monitor="c11"), dict(build="ni", monitor="c11", opts=NI_ONLY)],
@@ -773,7 +773,7 @@ PROPS["C15"] = dict(
     level_text="The C14 operation sequences (depth 3 quick / 4 thorough, all constructors and lengths) plus dedicated histories over the unprotected HeapBytes / HeapByteArray containers (drop, grow across a "
                "reallocation, shrink, grow-then-shrink, clone, truncate, repeated growth, lock/unlock/no-access) and over the object types that embed protected containers (LockedBox, locked key pairs, "
                "precomputed keys, locked signed messages, LockedPwHash, heap DryocBox) run with every container filled with a zero-free pattern; the hook inspects the whole released allocation including spare capacity. "
-               "A history that never observes a release is inconclusive, not held.",
+               "A history that never observes a release is inconclusive, not held. A second observer that does not depend on the hook (posix_memalign / free defined in the monitor executable) searches every page-aligned block given to free(), and every block still allocated after all containers were dropped, for the secret pattern.",
     level_note="The hook sits after all wiping the crate does and before free(); leaks (allocations never released) are outside the property and only counted.",
     runs=lambda tier: [dict(build="ni", monitor="c15"), dict(build="ni", monitor="c15", tier="quick", opts={"mlockall": "1"}, nshards=8), dict(kind="custom", fn=_valgrind("c15"))] + ([dict(kind="custom", fn=_asan("c15"))] if tier == "thorough" else []),
     floors=_c15_floors,
@@ -842,7 +842,7 @@ PROPS["C16"] = dict(
     level_text="Boxes (plain and sealed), secret boxes, signed messages, key pairs, sessions, KDFs and password hashes with stack, Vec, heap, locked and read-only-locked containers are round-tripped for every "
                "payload length 0..=130 (quick) / 0..=600 (thorough); for each fixed-length array type (16/24/32/64 bytes, stack and locked-heap) every element count 0..=2N is presented as a JSON array (element-sequence path), "
                "a bincode byte string (byte-string path), through serde's value deserializers and through TryFrom / from_slices, and must be rejected unless the count is exactly N. "
-               "The count enumeration is exhaustive within 0..=2N; payloads and keys are sampled.",
+               "The count enumeration is exhaustive within 0..=2N; payloads and keys are sampled. Vec-backed boxes are additionally rebuilt with 1..64 bytes of spare capacity and after a JSON round trip; to_vec / to_bytes / into_vec must still give the wire bytes.",
     level_note="HeapByteArray<N> and LockedRO<...> only implement Serialize; their encodings are compared with the stack type's. Vec<u8> containers have no fixed length to enforce and are only round-tripped.",
     runs=lambda tier: [dict(build="st", monitor="c16"), dict(build="ni", monitor="c16", opts=NI_ONLY)] + ([dict(kind="custom", fn=_MIRI("c16"))] if tier == "thorough" else []),
     floors=_c16_floors,
@@ -945,7 +945,7 @@ PROPS["C18"] = dict(
     technique="runtime differential monitoring across builds: one deterministic probe corpus is executed by three builds of the crate (default software backend on stable, nightly, nightly + portable-SIMD backend) and the output transcripts are diffed; inside the nightly builds every operation is repeated with stack / Vec / heap / locked / read-only-locked containers and compared in-process",
     level_text="The probe corpus covers BLAKE2b one-shot for every length 0..=520 (quick) / 1100 (thorough) and all 49x50 digest/key pairs, every 2-way chunking of every length 0..=400/700 and 3-way chunkings at the block "
                "boundaries, SHA-512, HMAC, Poly1305, SipHash, KDF (all lengths x ids), seeded box key pairs, X25519, kx, box, secretbox, hand-built sealed boxes (nonce derivation), signatures (pure and pre-hashed) "
-               "and an Argon2 grid including password lengths that end on BLAKE2b block boundaries. Any differing transcript line or container mismatch is a violation. Inputs are fixed by the corpus, hence exploration.",
+               "and an Argon2 grid including password lengths that end on BLAKE2b block boundaries. Any differing transcript line or container mismatch is a violation. Four build configurations are compared (stable verif profile, stable plain release, nightly, nightly + simd_backend); the lengths of all 51 public type aliases are compared with libsodium's constants and the length-inferring generic-hash API is run through the stack and protected aliases. Inputs are fixed by the corpus, hence exploration.",
     level_note="Equality with the specifications is decided by C07/C08/C09/C12 on the stable build; C18 adds that the other configurations and container types produce the same bytes.",
     runs=lambda tier: [dict(kind="custom", fn=_c18_run)],
     floors=_c18_floors,
